@@ -377,6 +377,29 @@ func (g *Gen) fresh(prefix string) string {
 	if g.CaseTwins {
 		switch prefix {
 		case "T", "E", "I", "In", "S", "U":
+			// a type named like a custom directive (types and directives live in
+			// separate name spaces)
+			if len(g.St.Dirs) > 0 && g.T.Bool(1, 10) {
+				n := g.St.Dirs[g.T.Draw(len(g.St.Dirs))]
+				taken := false
+				for k, l := range g.issued {
+					if k == "d" {
+						continue // the directive itself
+					}
+					for _, x := range l {
+						if x == n {
+							taken = true
+						}
+					}
+				}
+				if !taken {
+					if g.issued == nil {
+						g.issued = map[string][]string{}
+					}
+					g.issued[prefix+"-dirtwin"] = append(g.issued[prefix+"-dirtwin"], n)
+					return n
+				}
+			}
 			if prev := g.issued[prefix]; len(prev) > 0 && g.T.Bool(1, 5) {
 				n := strings.ToLower(prev[g.T.Draw(len(prev))])
 				taken := false
